@@ -39,6 +39,9 @@ package absconf
 //	           array holding that one body object; several blocks with identical
 //	           type and labels under one property are always an array of bodies
 //
+// With Options.Uniform the container, cut and leaf choices are made once per
+// document instead of at every place (see Options).
+//
 // Attribute values have exactly one JSON rendering (JSONValue).
 
 type ChoiceKind int
@@ -47,9 +50,10 @@ const (
 	KJoin    ChoiceKind = iota // join the latest same-type property; no property of another block type lies between
 	KJoinFar                   // same, but a property of another block type lies between (global block order changes)
 	KLabelSplit
-	KContainer
-	KCut
-	KLeaf
+	KContainer    // a label level: object | array of objects
+	KCut          // a gap between two properties of an array-form container
+	KLeaf         // a single block: body object | one-element array
+	KTopContainer // the top-level body: object | array of objects
 )
 
 // Feat is the set of JSON freedoms an encoding actually uses.
@@ -108,6 +112,14 @@ type Options struct {
 	DecorProduct bool
 	// DegenerateTypes are the block type names tried as "T": [] / "T": null.
 	DegenerateTypes []string
+	// Uniform: the container, cut and leaf choices are made once per document
+	// (every label level an object or every one an array, every gap cut or
+	// none, every single block a body object or a one-element array) instead of
+	// independently at every place; the join and label-split choices, which
+	// decide which blocks are siblings in one JSON object, stay independent.
+	// Used for block types with many labels, where the independent product
+	// explodes.
+	Uniform bool
 	// MaxCutProps: containers with more properties than this are not split
 	// every way when in array form; only the one-property-per-element split is
 	// produced. 0 = no limit.
@@ -183,6 +195,7 @@ func (c *chooser) next() bool {
 }
 
 type encoder struct {
+	uni   map[ChoiceKind]int
 	ch    *chooser
 	opt   Options
 	decor int // 0 none, 1 comment first, 2 comment last, 3+2i empty DegenerateTypes[i], 4+2i null
@@ -192,7 +205,21 @@ type encoder struct {
 	null  string
 }
 
+// pick makes a container / cut / leaf choice (once per document with Options.Uniform).
+func (e *encoder) pick(kind ChoiceKind, n int) int {
+	if !e.opt.Uniform {
+		return e.ch.pick(kind, n)
+	}
+	if v, ok := e.uni[kind]; ok {
+		return v
+	}
+	v := e.ch.pick(kind, n)
+	e.uni[kind] = v
+	return v
+}
+
 func (e *encoder) run(b Body) *Encoding {
+	e.uni = map[ChoiceKind]int{}
 	e.feat, e.order, e.empty, e.null = 0, true, "", ""
 	if e.decor >= 3+2*len(e.opt.DegenerateTypes) {
 		e.decor = 0
@@ -284,7 +311,7 @@ func (e *encoder) body(b Body, top bool) *JNode {
 			props = append(props, JProp{Name: e.null, Val: &JNode{Kind: JNull}})
 		}
 	}
-	if !top || e.ch.pick(KContainer, 2) == 0 {
+	if !top || e.pick(KTopContainer, 2) == 0 {
 		return e.bodyObject(props)
 	}
 	e.feat |= FBodyArray
@@ -306,7 +333,7 @@ func (e *encoder) cuts(props []JProp) [][]JProp {
 			if e.opt.MaxCutProps > 0 && len(props) > e.opt.MaxCutProps {
 				cut = true
 			} else {
-				cut = e.ch.pick(KCut, 2) == 1
+				cut = e.pick(KCut, 2) == 1
 			}
 		}
 		if cut {
@@ -322,7 +349,7 @@ func (e *encoder) cuts(props []JProp) [][]JProp {
 func (e *encoder) level(seq []Item, d int) *JNode {
 	if len(seq[0].Labels) == d {
 		if len(seq) == 1 {
-			if e.ch.pick(KLeaf, 2) == 0 {
+			if e.pick(KLeaf, 2) == 0 {
 				return e.body(seq[0].Body, false)
 			}
 			e.feat |= FBlockArray1
@@ -352,7 +379,7 @@ func (e *encoder) level(seq []Item, d int) *JNode {
 	for _, r := range runs {
 		props = append(props, JProp{Name: r[0].Labels[d], Val: e.level(r, d+1)})
 	}
-	if e.ch.pick(KContainer, 2) == 0 {
+	if e.pick(KContainer, 2) == 0 {
 		return &JNode{Kind: JObj, Props: props}
 	}
 	e.feat |= FLabelArray
@@ -384,7 +411,7 @@ func policyFunc(name string) func(kind ChoiceKind, n int) int {
 		// body sits in a one-element array
 		return func(kind ChoiceKind, n int) int {
 			switch kind {
-			case KLabelSplit, KContainer, KCut, KLeaf:
+			case KLabelSplit, KContainer, KTopContainer, KCut, KLeaf:
 				return 1
 			}
 			return 0
